@@ -20,6 +20,13 @@ CHECKS = {
         note="Trusted: flat type abstraction (lemma TYPE-IS), expression arena stub, induction over tree height as meta-step, children-first prologue checked textually, areEquivalent recursion/isSameScalarType answered by arbitrary-result contracts. Scope: operands of relational operators are integral terms, formulas, clock/difference/double/rate terms without hidden comparisons. Known finding C10-KF1 (comparisons outside the recognised clock shapes typed BOOL) is excluded by input class and re-checked to fail only there.",
         technique="one-level induction step per operator on the sliced real clause text, contract as assume/call/assert harness (mode H) in CBMC; ghost summaries for clock-freeness/convexity; native replay through parse_XTA",
     ),
+    "C14": dict(
+        category="proof",
+        text="2-run symmetry harness on the REAL clause texts of checkExpression (PLUS, MULT/MIN/MAX group, EQ, NEQ, AND, OR, BIT_* group, INLINE_IF) and the REAL getInlineIfCommonType / areInlineIfCompatible / areAssignmentCompatible / areEqCompatible / areEquivalent (top level): for arbitrary flat operand types A,B the clause is executed on (A,B) and (B,A); obligations: same acceptance, same result base kind. Complete over all base kinds x wrapper sets; record width <= 2.",
+        design_ref="DESIGN.md section 4, C14",
+        note="Trusted: flat type abstraction (TYPE-IS); recursive calls of areEquivalent and isSameScalarType on sub-structures are answered by symmetric contracts (a symbolic symmetric matrix) - their symmetry on real type trees (reference/const wrapper sentence of the statement) is NOT yet under contract (needs the tree type stub). 'Kind' is read as the stripped kind. Known finding C14-KF1 (bool/int inline-if takes the first branch's kind).",
+        technique="relational (2-run) contract on sliced real clause text, assume/call/assert harness in CBMC; native replay of both operand orders through parse_XTA",
+    ),
 }
 
 NOT_APPLICABLE = {
